@@ -98,9 +98,9 @@ def extra_objects():
         out[f"x.{d}.temporal_values"] = lambda Q=Q: (Q.update(t1).set(t1.a, datetime.time(1, 2, 3, tzinfo=datetime.timezone.utc))
                                                      .set(t1.b, datetime.datetime(2020, 1, 2, 3, 4, 5, tzinfo=datetime.timezone(datetime.timedelta(hours=2))))
                                                      .set(t1.c, datetime.date(2020, 2, 29)).where(t1.d == datetime.time(4, 5, 6, 7)))
-        out[f"x.{d}.temporal_select"] = lambda Q=Q: (lambda b: b.select(b._wrapper_cls(datetime.time(1, 2, 3, tzinfo=datetime.timezone.utc)),
-                                                                       b._wrapper_cls(datetime.datetime(2020, 1, 2, tzinfo=datetime.timezone.utc)), b._wrapper_cls(uuid.UUID(int=5)),
-                                                                       b._wrapper_cls(decimal.Decimal("1.50"))))(Q.from_(t1))
+        out[f"x.{d}.temporal_select"] = lambda Q=Q: (lambda b: b.select(core.wrapper_cls(b)(datetime.time(1, 2, 3, tzinfo=datetime.timezone.utc)),
+                                                                       core.wrapper_cls(b)(datetime.datetime(2020, 1, 2, tzinfo=datetime.timezone.utc)), core.wrapper_cls(b)(uuid.UUID(int=5)),
+                                                                       core.wrapper_cls(b)(decimal.Decimal("1.50"))))(Q.from_(t1))
         out[f"x.{d}.upsert_values"] = lambda Q=Q: Q.into(t1).insert(1, "a\\b", {"k": "v\\"}).on_conflict("a").do_update("b", "c\\d")
     return out
 
